@@ -2,7 +2,7 @@ open Model
 open Driver_base
 
 (* C14: the answers must be those of the data as it was when the library received it *)
-let () = reg "C14" "AliasCtor" (fun ver args obs ->
+let alias_ctor prop = reg prop "AliasCtor" (fun ver args obs ->
   let a = mk args in
   let ctor = next a in let num = next a in let den = next a in
   let when_ = next_int a in let _n2 = next a in let _d2 = next a in let depth = next a in
@@ -13,6 +13,9 @@ let () = reg "C14" "AliasCtor" (fun ver args obs ->
                else (match v.spec with Some m -> Some ("after the caller's mutation: " ^ m) | None -> None) in
     { model = "1" :: v.model; tags = ["when" ^ string_of_int when_]; spec; known = None }
   | [] -> { model = []; tags = []; spec = Some "malformed observation"; known = None })
+
+let () = alias_ctor "C14"
+let () = alias_ctor "C13"
 
 let () = reg "C14" "AliasPat" (fun ver args _obs ->
   let a = mk args in
